@@ -17,6 +17,7 @@ class Recorder:
         self.nets: dict[int, dict] = {}      # id(net) -> {"net": net, "ev": [], "objs": {id(obj): desc-key}}
         self.order: list[int] = []
         self.byname: dict[str, object] = {}   # species name -> first Species object seen with that name
+        self.queries = False                  # True: every logged state also carries answers of where_species / where_reaction
 
     # ------------------------------------------------------------------ raw descriptors (names, not ids)
     def rdesc(self, reac, idx=None):
@@ -43,7 +44,9 @@ class Recorder:
     def project(self, sl):
         net = sl["net"]
         src, snk = net.find_source_sink()
+        q = self.ask(sl) if self.queries else {}
         return {
+            **q,
             "rlist": [self.obj_key(sl, r) for r in net.reaction_list],
             "skipped": [self.obj_key(sl, r) for r in net._skipped_reactions],
             "reactants": list(net._reactants), "products": list(net._products),
@@ -51,6 +54,33 @@ class Recorder:
             "idxs": [r.idxfromfile for r in net.reaction_list],
             "allowed": list(net._allowed_species),
         }
+
+    def ask(self, sl):
+        """where_species for (a deterministic handful of) the species the network holds plus one it does not, in the three modes;
+        where_reaction for the first, middle and last reaction held and one skipped, in the three comparison modes.  Species
+        OBJECTS are passed, so no name is parsed on the way."""
+        net = sl["net"]
+        held = sorted(set(net._reactants) | set(net._products), key=lambda s: s.name)
+        step = max(1, len(held) // 5)
+        asked = held[::step][:6]
+        absent = [s for nm, s in sorted(self.byname.items()) if s not in held][:1]
+        ws = []
+        for s in asked + absent:
+            for m in ("reactant", "product", "all"):
+                try:
+                    ws.append((s, m, [i + 1 for i in net.where_species(s, m)]))
+                except Exception as e:   # noqa
+                    ws.append((s, m, [-1]))
+        rl = net.reaction_list
+        cand = ([rl[0], rl[len(rl) // 2], rl[-1]] if rl else []) + list(net._skipped_reactions[:1])
+        wr = []
+        for r in cand:
+            for m in (None, "minimal", "short"):
+                try:
+                    wr.append((self.obj_key(sl, r), m or "default", [i + 1 for i in net.where_reaction(r, m)]))
+                except Exception as e:   # noqa
+                    wr.append((self.obj_key(sl, r), m or "default", [-1]))
+        return {"ws": ws, "wr": wr}
 
     def log(self, net, ev):
         sl = self.slot(net)
@@ -272,6 +302,9 @@ def to_traces(rec: Recorder, tid0: int = 1, meta: dict | None = None, merge: boo
                 "sinks": sorted({cls(s) for s in p["sinks"]}), "idxs": p["idxs"],
                 "allowed": sorted({cls(s) for s in p["allowed"]}),
             }
+            if "ws" in p:
+                o["post"]["ws"] = [{"c": cls(sp), "m": m, "a": a} for sp, m, a in p["ws"]]
+                o["post"]["wr"] = [{"i": rix(k3), "m": m, "a": a} for k3, m, a in p["wr"]]
             if e.get("unordered"):
                 # file order across kept/skipped is not observable from outside: present kept-then-skipped and let the
                 # spec's AddAll re-derive both lists (it only needs the order WITHIN each list, which is preserved)
